@@ -1946,9 +1946,7 @@ func (node OnDup) walkSubtree(visit Visit) error {
 func (node ColIdent) FormatForDialect(dialect dialect.Dialect, buf *TrackedBuffer) {
 	if node.quote != 0 {
 		// print as is in quotes
-		buf.WriteByte(node.quote)
-		buf.Write([]byte(node.val))
-		buf.WriteByte(node.quote)
+		writeQuotedIdentifier(buf, node.quote, node.val)
 	} else if node.unquote {
 		buf.Write([]byte(node.val))
 	} else {
@@ -1966,12 +1964,23 @@ func (node ColIdent) walkSubtree(visit Visit) error {
 }
 
 // FormatForDialect formats the node for specified dialect
+// writeQuotedIdentifier prints identifier in its original quotes; a quote character inside
+// the identifier (the tokenizer un-doubles it) is doubled again
+func writeQuotedIdentifier(buf *TrackedBuffer, quote byte, identifier string) {
+	buf.WriteByte(quote)
+	for i := 0; i < len(identifier); i++ {
+		buf.WriteByte(identifier[i])
+		if identifier[i] == quote {
+			buf.WriteByte(quote)
+		}
+	}
+	buf.WriteByte(quote)
+}
+
 func (node TableIdent) FormatForDialect(dialect dialect.Dialect, buf *TrackedBuffer) {
 	if node.quote != 0 {
 		// print as is in quotes
-		buf.WriteByte(node.quote)
-		buf.Write([]byte(node.v))
-		buf.WriteByte(node.quote)
+		writeQuotedIdentifier(buf, node.quote, node.v)
 	} else {
 		formatIDForDialect(dialect, buf, node.v, strings.ToLower(node.v))
 	}
@@ -1981,9 +1990,7 @@ func (node TableIdent) FormatForDialect(dialect dialect.Dialect, buf *TrackedBuf
 func (node TableIdent) Format(buf *TrackedBuffer) {
 	if node.quote != 0 {
 		// print as is in quotes
-		buf.WriteByte(node.quote)
-		buf.Write([]byte(node.v))
-		buf.WriteByte(node.quote)
+		writeQuotedIdentifier(buf, node.quote, node.v)
 	} else {
 		formatID(buf, node.v, strings.ToLower(node.v))
 	}
